@@ -317,6 +317,22 @@ def run(facts, rep, tier):
     if appends or exact:
         rep.check(paired, 'LO.2', f'languages is appended to only together with an assignment of languageCode ({len(appends)} sites)', appends[0].shortloc() if appends else f.shortloc(),
                   'the languages list is not a witness of languageCode any more', key='LO.2|witness-pairing', fn=f.name)
+    def has_witness(at):
+        """a dominating guard says the languages list is not empty, evaluated after the last append that can reach `at`: a language was
+        matched, so languageCode was assigned with it (witness pairing)"""
+        for atom, pol in guards.known_at(f, at):
+            a = guards.strip_casts(atom)
+            if a.k == 'call' and a.callee_base() == 'empty' and a.n('object') is not None and res_field(a.n('object')) == 'languages' and pol is False:
+                if all(not (cfg.reaches(a, ap) and cfg.reaches(ap, at)) for ap in appends) and not any('@reset' in gen_of(x) and cfg.reaches(a, x) and cfg.reaches(x, at) for x in f.nodes()): return True
+            if a.k == 'ref' and a.dk == 'local' and pol is True:
+                # `const bool languageFound = !result.languages.empty();`
+                i_ = guards.single_assignment_init(f, a.decl)
+                if i_ is not None:
+                    for a2, p2 in guards.expand(f, i_, True):
+                        a2 = guards.strip_casts(a2)
+                        if a2.k == 'call' and a2.callee_base() == 'empty' and a2.n('object') is not None and res_field(a2.n('object')) == 'languages' and p2 is False:
+                            if all(not (cfg.reaches(a2, ap) and cfg.reaches(ap, at)) for ap in appends): return True
+        return False
     # reads of result fields before assignment
     for n in f.nodes():
         fl = res_field(n) if n.k == 'member' else None
@@ -325,6 +341,7 @@ def run(facts, rep, tier):
             is_write = par is not None and par.k == 'binop' and par.op == '=' and par.n('lhs') is not None and par.n('lhs').id == n.id
             if is_write: continue
             if fl not in assigned_at(n):
+                if fl == 'languageCode' and paired and has_witness(n): continue          # assigned together with the (non-empty) languages list
                 rep.violation('LO.2', f'result.{fl} is read before it is assigned', n.shortloc(),
                               f'`{(par or n).text()[:60]}` reads {fl}, which has no default initialiser and is not assigned on every path to this point: the value is indeterminate (whatever the caller\'s storage held), so the test decides nothing',
                               key=f'LO.2|uninit-read|{fl}', fn=f.name)
@@ -432,6 +449,17 @@ def run(facts, rep, tier):
                     rep.ok('LO.3', f'result.{fl} = {v.text()[:30]} is the {want_mem} of the {want_tbl} entry found by a search over that table', n.shortloc()); continue
             if not ok and v is not None and v.k == 'member' and v.name == want_mem:
                 rep.inconclusive('LO.3', f'result.{fl} = {v.text()[:30]}', n.shortloc(), f'`{v.text()[:30]}` is not a member of a range-for variable over a table: its origin is not followed'); continue
+            if not ok and v is not None:
+                # not an entry member: refuted when it is (a pointer into) storage of this call - the scratch buffer, a local, the parameter -,
+                # otherwise (a member of some other object: a memo, a static) its origin is not followed
+                root_ = v
+                while root_ is not None and root_.k in ('member', 'subscript', 'unop', 'cast') and (root_.n('base') is not None or root_.n('sub') is not None):
+                    root_ = guards.strip_casts(root_.n('base') if root_.n('base') is not None else root_.n('sub'))
+                local_storage = root_ is not None and root_.k == 'ref' and root_.dk in ('local', 'param') and not (root_.d.get('storage') in ('static', 'thread_local') or 'static' in (root_.d.get('sc') or ''))
+                is_static = root_ is not None and root_.k == 'ref' and (root_.dk in ('global', 'static') or root_.d.get('storage') in ('static', 'thread_local'))
+                if True:
+                    if not (root_ is not None and root_.k == 'ref' and root_.dk in ('local', 'param') and v.k in ('ref', 'subscript', 'unop')):
+                        rep.inconclusive('LO.3', f'result.{fl} = {v.text()[:30]}', n.shortloc(), f'`{v.text()[:30]}` is neither a member of a table entry nor storage of this call: its origin is not followed'); continue
             ok = bool(ok) and loopvars[v.n('base').decl].endswith(want_tbl) and v.name == want_mem
             rep.check(ok, 'LO.3', f'result.{fl} = {v.text()[:30] if v is not None else "?"} is the {want_mem} of a {want_tbl} entry', n.shortloc(), f'{fl} is taken from {v.text()[:40] if v is not None else "?"}', key=f'LO.3|prov|{fl}', fn=f.name)
     for a in appends:
